@@ -56,12 +56,17 @@ type scen struct {
 	Bound int    `json:"bound"` // preemption bound, -1 = all interleavings (keyed)
 	// Gap: the array was idle for one more full interval before the boundary, so EVERY slot is expired
 	// and callers in different buckets roll different slots over at the same time
-	Gap  bool `json:"idle_gap,omitempty"`
-	arr  *sb.BucketLeapArray
-	ops  [][]op // per execution copy
-	seq  int
-	prec uint64 // bit (a*8+b): op a finished before op b started (global op index)
-	roll [4]struct {
+	Gap bool `json:"idle_gap,omitempty"`
+	// Getter (1 MinRt, 2 MaxConcurrency): one thread calls the getter, which reads the clock itself (twice: to
+	// refresh the current bucket and to scan), while another thread moves the clock from B-1 to B; with the
+	// idle gap every bucket filled in setup is expired at both instants, so nothing of them may be reported
+	Getter int `json:"moving_clock_getter,omitempty"`
+	gres   int64
+	arr    *sb.BucketLeapArray
+	ops    [][]op // per execution copy
+	seq    int
+	prec   uint64 // bit (a*8+b): op a finished before op b started (global op index)
+	roll   [4]struct {
 		thread int
 		start  uint64
 		active bool
@@ -77,6 +82,9 @@ func (s *scen) name() string {
 	g := ""
 	if s.Gap {
 		g = " idle-gap"
+	}
+	if s.Getter != 0 {
+		return fmt.Sprintf("N=%d bl=%d B=%d%s getter %s || clock %d -> %d", s.N, s.BL, s.B, g, [...]string{"", "MinRt", "MaxConcurrency"}[s.Getter], s.B-1, s.B)
 	}
 	return fmt.Sprintf("N=%d bl=%d B=%d%s %s", s.N, s.BL, s.B, g, b)
 }
@@ -511,7 +519,45 @@ func (s *scen) rolledAwayBefore(a *op, seq int) bool {
 	return false
 }
 
+func (s *scen) getterSetup() {
+	s.setup()
+	vsched.AfterOp = nil
+	s.arr.VerifAddCountWithTime(s.staleStart(0), cb.MetricEventRt, 7)
+	s.arr.VerifUpdateConcurrencyWithTime(s.staleStart(0), 5)
+	env.Clock.SetMs(int64(s.B - 1))
+	s.gres = -1
+}
+
+func (s *scen) getterThreads() []func() {
+	return []func(){
+		func() {
+			if s.Getter == 1 {
+				s.gres = s.arr.MinRt()
+			} else {
+				s.gres = int64(s.arr.MaxConcurrency())
+			}
+		},
+		func() { env.Clock.SetMs(int64(s.B)) },
+	}
+}
+
+func (s *scen) getterCheck(x *vsched.Exec) (string, string) {
+	want, name := int64(cb.DefaultStatisticMaxRt), "MinRt"
+	if s.Getter == 2 {
+		want, name = 0, "MaxConcurrency"
+	}
+	out := fmt.Sprintf("%s=%d", name, s.gres)
+	if s.gres != want {
+		return out, fmt.Sprintf("%s() while the clock moves from %d to %d reports %d: data of an expired bucket (start %d, recorded two intervals ago) is visible, want %d", name, s.B-1, s.B, s.gres, s.staleStart(0), want)
+	}
+	return out, ""
+}
+
 func (s *scen) scenario() *sched.Scenario {
+	if s.Getter != 0 {
+		return &sched.Scenario{Name: s.name(), Setup: s.getterSetup, Threads: s.getterThreads, Check: s.getterCheck,
+			StateKey: s.stateKey, MaxSteps: 5000, HorizonViolates: true, POR: false}
+	}
 	return &sched.Scenario{
 		Name:     s.name(),
 		Setup:    s.setup,
@@ -608,6 +654,10 @@ func scenarios(c *props.Ctx) []*scen {
 					out = append(out, &scen{N: g.N, BL: g.BL, B: g.B, Progs: [][]op{{{Kind: opAddRt, T: t1}}, {{Kind: opAddRt, T: t2}}}, Bound: -1})
 				}
 			}
+		}
+		// a getter that reads the clock itself, against the clock crossing the boundary
+		for k := 1; k <= 2 && g.N > 1; k++ {
+			out = append(out, &scen{N: g.N, BL: g.BL, B: g.B, Bound: 2, Gap: true, Getter: k})
 		}
 		// class A': a non-refreshing conditional reader against every two-op program, and on its own
 		for _, t := range ts {
